@@ -260,21 +260,28 @@ Definition tval_of_member (m : str * (jval * str)) : str * tval :=
     end
   else (k, TRaw src (kind_of_jval v)).
 
-Record loaded := { l_doc : fdoc; l_tops : src_table; l_ents : src_table }.
+Record loaded := { l_doc : fdoc; l_tops : src_table; l_ents : src_table; l_helpers : list (str * str) }.
 
 (* None: the file cannot be decoded into map[string]json.RawMessage *)
 Definition read_config (text : str) : option loaded :=
   match parse_first text with
-  | Some JNull => Some {| l_doc := []; l_tops := []; l_ents := [] |}
+  | Some JNull => Some {| l_doc := []; l_tops := []; l_ents := []; l_helpers := [] |}
   | Some (JObj ms) =>
       let ms' := dedup_last ms in
       let ents := match lookup configFieldAuths ms' with
                   | Some (JObj es, _) => map (fun m => (fst m, snd (snd m))) (dedup_last es)
                   | _ => []
                   end in
+      (* credHelpers into map[string]string: a null member leaves the zero value *)
+      let helpers := match lookup configFieldCredentialHelpers ms' with
+                     | Some (JObj hs, _) =>
+                         map (fun m => (fst m, match fst (snd m) with JStr s => s | _ => [] end)) (dedup_last hs)
+                     | _ => []
+                     end in
       Some {| l_doc := map tval_of_member ms';
               l_tops := map (fun m => (fst m, snd (snd m))) ms';
-              l_ents := ents |}
+              l_ents := ents;
+              l_helpers := helpers |}
   | _ => None
   end.
 
@@ -287,6 +294,20 @@ Definition open_bytes (f : option str) : option (state * src_table * src_table) 
       | None => None
       | Some l => match open_store (Some (l_doc l)) with
                   | Some st => Some (st, l_tops l, l_ents l)
+                  | None => None
+                  end
+      end
+  end.
+
+(* credentials.NewStore on the bytes of the config file: the store and the credHelpers map *)
+Definition open_dynamic (f : option str) : option (state * src_table * src_table * list (str * str)) :=
+  match f with
+  | None => match open_store None with Some st => Some (st, [], [], []) | None => None end
+  | Some text =>
+      match read_config text with
+      | None => None
+      | Some l => match open_store (Some (l_doc l)) with
+                  | Some st => Some (st, l_tops l, l_ents l, l_helpers l)
                   | None => None
                   end
       end
